@@ -528,7 +528,9 @@ def install():
                     ctx.count("empty_branch_completions")
                     if released and released[0].name == blk["terminal"]:
                         ctx.count("empty_branch_taken")
-                if blk["cond"] == r["name"] and blk["terminal"] in [t.name for t in cancelled]:
+                # (when nothing was released -- every eligible child had been cancelled beforehand -- no branch runs and the
+                # join is starved: its cancellation is the downstream closure of C06, not a fault of the resolution)
+                if blk["cond"] == r["name"] and released and blk["terminal"] in [t.name for t in cancelled]:
                     empty = [br for br in blk["branches"] if br.get("empty")]
                     taken_is_empty = bool(released) and released[0].name == blk["terminal"]
                     ctx.violate("C07", "join_cancelled_by_branch_resolution",
@@ -546,9 +548,12 @@ def install():
                         ctx.violate("C07", "not_resolved_to_one_child_at_submission",
                                     f"{r['uname']} completed; children at submission {[(k, snap0[k]) for k in kids]}")
             if len(released) != 1:
-                # releasing nothing is only legitimate when every child had already been cancelled (by a policy that was
-                # offered the children ahead of time) before this completion was notified
-                if not all(ctx._child_states.get(c) == "CANCELLED" for c in kids):
+                # releasing nothing is only legitimate when every child that was eligible when the graph entered the
+                # simulator (non-zero weight then) had already been cancelled -- by a policy that was offered the children
+                # ahead of time -- before this completion was notified (a cancellation zeroes the child's weight)
+                snap1 = ctx.prob_snapshot.get((r["graph"],), {}) if hasattr(ctx, "prob_snapshot") else {}
+                eligible = [c for c in kids if snap1.get(c, probs.get(c, 0)) > 1e-12]
+                if not all(ctx._child_states.get(c) == "CANCELLED" for c in eligible) or (not eligible and not snap1):
                     ctx.violate("C07", "not_exactly_one_child", f"{r['uname']} released {rel_names} with probs {probs}, "
                                                                   f"child states {ctx._child_states}")
             else:
@@ -589,8 +594,14 @@ def install():
     # ---- workload entering the simulator: probability snapshot -----------------------
     @active
     def update_workload_after(ctx, ret, self, event):
-        ctx.prob_snapshot = {}
+        # the probabilities as each graph ENTERED the simulator: taken once per graph (later updates -- with
+        # --workload_update_interval the handler runs again -- must not overwrite it with values that cancellations
+        # have zeroed since)
+        if not hasattr(ctx, "prob_snapshot"):
+            ctx.prob_snapshot = {}
         for gname, tg in self._workload.task_graphs.items():
+            if (gname,) in ctx.prob_snapshot:
+                continue
             ctx.prob_snapshot[(gname,)] = {t.name: t.probability for t in tg.get_nodes()}
             for t in tg.get_nodes():
                 ctx.trec(t)
